@@ -408,6 +408,36 @@ func genuineSet(rb *roaring.Bitmap, keep any, deep, light bool) string {
 	if !back.Equals(rb) || !sliceEq(back.ToArray(), arr) {
 		return "Validate()==nil but re-serialising does not round trip"
 	}
+	// a genuine set stays one under single-value edits: remove the smallest / largest value of every chunk and add
+	// an absent one, on a clone; each result is exact, validates, and its size accounting agrees with the bytes written
+	if len(arr) > 0 {
+		for _, k := range m.Keys() {
+			lo, _ := firstPresent(m, k)
+			for _, edit := range []string{"Remove(first of chunk)", "Add(first absent of chunk)"} {
+				cl, cm := rb.Clone(), m.Clone()
+				if edit[0] == 'R' {
+					cl.Remove(lo)
+					cm.Remove(lo)
+				} else if x, ok := firstAbsent(m, k); ok {
+					cl.Add(x)
+					cm.Add(x)
+				}
+				if got := extractOf(cl); !got.Equal(cm) {
+					return fmt.Sprintf("Validate()==nil but decoded.Clone().%s is wrong: %s", edit, diff32(got, cm))
+				}
+				if err := cl.Validate(); err != nil {
+					return fmt.Sprintf("Validate()==nil but after %s on chunk %d the bitmap no longer validates: %v", edit, k, err)
+				}
+				d2, err := cl.ToBytes()
+				if err != nil || uint64(len(d2)) != cl.GetSerializedSizeInBytes() {
+					return fmt.Sprintf("Validate()==nil but after %s on chunk %d GetSerializedSizeInBytes()=%d and %d bytes are written (%v)", edit, k, cl.GetSerializedSizeInBytes(), len(d2), err)
+				}
+			}
+			if len(m.Keys()) > 8 {
+				break
+			}
+		}
+	}
 	runtime.KeepAlive(keep)
 	return ""
 }
